@@ -137,6 +137,8 @@ def get_struct(obj, t):
         else:
             x = getattr(obj, fname)
             if ft[0] == 'byte':
+                if isinstance(x, str):      # a never-assigned non-fixed bytes field holds the str ''
+                    x = x.encode('latin-1')
                 out.append(['list', list(bytearray(x))])
             elif comp:
                 out.append(['list', [get_composite(e, ft) for e in x]])
@@ -240,6 +242,13 @@ def run_job(job, workdir):
             except BaseException as ex:  # noqa
                 r['str'] = 'EXC:' + exc_name(ex)
         res['values'].append(r)
+    if 'histories' in job:
+        res['histories'] = []
+        for ops in job['histories']:
+            try:
+                res['histories'].append(run_history(cls, t, ops))
+            except BaseException as ex:  # noqa
+                res['histories'].append({'harness_error': '%s:%s' % (exc_name(ex), str(ex)[-200:])})
     if 'decode' in job:
         res['decode'] = [decode_one(cls, t, e, bytes(bytearray.fromhex(h)), fixpoint=True) for e, h in job['decode']]
     return res
@@ -306,6 +315,130 @@ def main():
     finally:
         shutil.rmtree(workdir, ignore_errors=True)
     json.dump(out, sys.stdout)
+
+
+
+# ---------------------------------------------------------------------------------------------
+# API histories (C10, C11): a list of operations applied to two fresh messages 'a' and 'b'
+# of the root type; after every operation the exception class (if any) and the observable
+# state of both messages are recorded.
+
+def _pyval(x, t, arm_names=None):
+    k = x[0]
+    if k == 'int':
+        return x[1]
+    if k == 'bool':
+        return bool(x[1])
+    if k == 'float':
+        return bits_to_float('r32' if x[1] == 4 else 'r64', x[2])
+    if k == 'floathuge':
+        return bits_to_float('r64', x[1])
+    if k == 'str':
+        if arm_names is not None:
+            return arm_names[x[1]] if 0 <= x[1] < len(arm_names) else 'no_such_arm'
+        if t is not None and t[0] == 'enum' and 0 <= x[1] < len(t[2]):
+            return t[2][x[1]][0]
+        return 'no_such_name'
+    if k == 'bytes':
+        return bytes(bytearray(x[1]))
+    if k == 'none':
+        return None
+    if k == 'list':
+        return [_pyval(e, t) for e in x[1]]
+    if k == 'iter':
+        return iter([_pyval(e, t) for e in x[1]])
+    raise ValueError(x)
+
+
+def _navigate(obj, t, path):
+    for s in path:
+        if t[0] == 'struct':
+            fname, k, ft = t[2][s[1]]
+            if s[0] == 'f':
+                obj = getattr(obj, fname)
+            else:
+                obj = getattr(obj, fname)[s[2]]
+            t = ft
+        else:
+            disc, aname, at = t[2][s[1]]
+            obj = getattr(obj, aname)
+            t = at
+    return obj, t
+
+
+def _slice(a, b, step=None):
+    return slice(a, b, step)
+
+
+def apply_op(roots, t, op):
+    obj, ot = _navigate(roots[op.get('root', 'a')], t, op.get('path', []))
+    kind = op['op']
+    if kind == 'copy':
+        roots[op['dst']].copy_from(roots[op['src']])
+        return
+    if kind == 'extend_from':
+        src, st = _navigate(roots[op['src_root']], t, op['src_path'])
+        sname = st[2][op['src_i']][0]
+        dname = ot[2][op['i']][0]
+        getattr(obj, dname).extend(getattr(src, sname)[:])
+        return
+    if kind == 'disc':
+        obj.discriminator = _pyval(op['x'], None, arm_names=[a[1] for a in ot[2]])
+        return
+    if ot[0] == 'union':
+        disc, aname, at = ot[2][op['i']]
+        setattr(obj, aname, _pyval(op['x'], at))
+        return
+    fname, k, ft = ot[2][op['i']]
+    if kind == 'set':
+        setattr(obj, fname, _pyval(op['x'], ft))
+        return
+    arr = getattr(obj, fname)
+    if kind == 'append':
+        arr.append(_pyval(op['x'], ft))
+    elif kind == 'insert':
+        arr.insert(op['idx'], _pyval(op['x'], ft))
+    elif kind == 'extend':
+        arr.extend(_pyval(op['x'], ft))
+    elif kind == 'setitem':
+        arr[op['idx']] = _pyval(op['x'], ft)
+    elif kind == 'setslice':
+        arr[_slice(op['a'], op['b'], op.get('step'))] = _pyval(op['x'], ft)
+    elif kind == 'delitem':
+        del arr[op['idx']]
+    elif kind == 'delslice':
+        del arr[_slice(op['a'], op['b'])]
+    elif kind == 'remove':
+        arr.remove(_pyval(op['x'], ft))
+    elif kind == 'add':
+        arr.add()
+    else:
+        raise ValueError(kind)
+
+
+def run_history(cls, t, ops):
+    roots = {'a': cls(), 'b': cls()}
+    out = []
+    for op in ops:
+        r = {}
+        try:
+            apply_op(roots, t, op)
+        except BaseException as ex:  # noqa
+            r['exc'] = exc_name(ex)
+        try:
+            ra = get_struct(roots['a'], t)
+            rb = get_struct(roots['b'], t)
+            r['a'], r['b'] = ra, rb
+        except BaseException as ex:  # noqa
+            r['get_exc'] = '%s:%s' % (exc_name(ex), str(ex)[-200:])
+        out.append(r)
+    final = {}
+    for name in 'ab':
+        try:
+            final[name] = bytearray(roots[name].encode('<')).hex()
+        except BaseException as ex:  # noqa
+            final[name] = 'EXC:' + exc_name(ex)
+    return {'steps': out, 'final_encode': final}
 
 
 if __name__ == '__main__':
